@@ -166,6 +166,15 @@ func (f *Func) redefineInputs(opts ...Arg) (reflect.Type, error) {
 	inputsProvided := map[interface{}]struct{}{}
 	for _, v := range vertexI {
 		inputsProvided[graph.VertexID(v)] = struct{}{}
+
+		// A provided type-only value also satisfies the equivalent
+		// type-only argument, so that must not be required again.
+		if out, ok := v.(*typedOutputVertex); ok {
+			inputsProvided[graph.VertexID(&typedArgVertex{
+				Type:    out.Type,
+				Subtype: out.Subtype,
+			})] = struct{}{}
+		}
 	}
 
 	// Build our required value
